@@ -787,11 +787,24 @@ func (rl *Shell) keywordDecrease() {
 
 // Switches the current word under the cursor, increasing or decreasing it.
 func (rl *Shell) keywordSwitch(increase bool) {
+	if rl.line.Len() == 0 {
+		return
+	}
+
 	cpos := strutil.AdjustNumberOperatorPos(rl.cursor.Pos(), *rl.line)
 
 	// Select in word and get the selection positions
 	bpos, epos := rl.line.SelectWord(cpos)
 	epos++
+
+	// Stay within the line.
+	if epos > rl.line.Len() {
+		epos = rl.line.Len()
+	}
+
+	if bpos < 0 || bpos > epos {
+		return
+	}
 
 	// Move the cursor backward if needed/possible
 	if bpos != 0 && ((*rl.line)[bpos-1] == '+' || (*rl.line)[bpos-1] == '-') {
